@@ -21,6 +21,7 @@ package vgirpc
 import (
 	"bytes"
 	"context"
+	"encoding/base64"
 	"encoding/gob"
 	"fmt"
 	"io"
@@ -422,8 +423,9 @@ func vf3World_() *vf3World {
 // Structural operators
 
 type vf3Op struct {
-	Name string
-	F    func(b *vf3Batch)
+	Name   string
+	F      func(b *vf3Batch)
+	NoPair bool // a large family explored singly only
 }
 
 func vf3OtherIPC(kind string) []byte {
@@ -464,7 +466,7 @@ var vf3Payloads = []string{"empty", "garbage", "truncated", "other-schema", "zer
 
 func vf3Ops(sd *vf3Seed, w *vf3World) []vf3Op {
 	var ops []vf3Op
-	add := func(name string, f func(b *vf3Batch)) { ops = append(ops, vf3Op{name, f}) }
+	add := func(name string, f func(b *vf3Batch)) { ops = append(ops, vf3Op{Name: name, F: f}) }
 	present := append([]string{}, sd.Primary.Keys...)
 	for _, k := range present {
 		k := k
@@ -633,6 +635,36 @@ func vf3Ops(sd *vf3Seed, w *vf3World) []vf3Op {
 		add("call:truncated", func(b *vf3Batch) { b.set(MetaCallState, own[1][:len(own[1])/2]) })
 		add("call:not-base64", func(b *vf3Batch) { b.set(MetaCallState, "!!!") })
 		add("tokens:other-principal-header", func(b *vf3Batch) { b.set("\x00hdr:X-User", "mallory") })
+		// token truncated to every text length: every proper prefix of the genuine
+		// cursor, and of the genuine call token (each job runs on a fresh server, so
+		// the call-state cache is cold and the call token is opened), plus filler
+		// tokens of every decoded length 0..48 behind the right version byte.
+		single := func(name string, f func(b *vf3Batch)) { ops = append(ops, vf3Op{Name: name, F: f, NoPair: true}) }
+		for n := 0; n < len(own[0]); n++ {
+			n := n
+			single(fmt.Sprintf("token-truncated:cursor@%d", n), func(b *vf3Batch) { b.set(MetaStreamState, own[0][:n]) })
+		}
+		for n := 0; n < len(own[1]); n++ {
+			n := n
+			single(fmt.Sprintf("token-truncated:call@%d", n), func(b *vf3Batch) { b.set(MetaCallState, own[1][:n]) })
+		}
+		for _, fill := range []byte{0x00, 0xff} {
+			for n := 0; n <= 48; n++ {
+				mk := func(version byte) string {
+					raw := make([]byte, n)
+					for i := range raw {
+						raw[i] = fill
+					}
+					if n > 0 {
+						raw[0] = version
+					}
+					return base64.StdEncoding.EncodeToString(raw)
+				}
+				cur, call := mk(cursorTokenVersion), mk(callTokenVersion)
+				single(fmt.Sprintf("token-truncated:filler-cursor@%d/%02x", n, fill), func(b *vf3Batch) { b.set(MetaStreamState, cur) })
+				single(fmt.Sprintf("token-truncated:filler-call@%d/%02x", n, fill), func(b *vf3Batch) { b.set(MetaCallState, call) })
+			}
+		}
 	}
 	return ops
 }
@@ -982,6 +1014,9 @@ func vf3OpClass(sd *vf3Seed, ops []vf3Op, op vf3Op, v vf3Verdict) string {
 		base, cls = "ptr-location@plain", "zero-row-location-pointer"
 	case strings.HasPrefix(op.Name, "ptr-shm:"):
 		base, cls = "ptr-shm:no-segment", "zero-row-shm-pointer"
+	case strings.HasPrefix(op.Name, "token-truncated:"):
+		name, _, _ := strings.Cut(op.Name, "@")
+		return name
 	default:
 		return op.Name
 	}
@@ -1085,7 +1120,12 @@ func TestVerif_C03(t *testing.T) {
 	if venum.Thorough() {
 		venum.Explore(t, venum.Cfg{Name: "structural-pairs", Shardable: true}, func(x *venum.X) {
 			sd := arrowSeeds[x.Choose(len(arrowSeeds), "seed")]
-			ops := vf3Ops(sd, w)
+			var ops []vf3Op
+			for _, o := range vf3Ops(sd, w) {
+				if !o.NoPair {
+					ops = append(ops, o)
+				}
+			}
 			ai, bi := x.Choose(len(ops), "first"), x.Choose(len(ops), "second")
 			a, b := ops[ai], ops[bi]
 			// A pair is explored for what the two operators do together; when one of
